@@ -1,12 +1,15 @@
 package c18
 
 import (
+	"bytes"
 	"context"
 	"encoding/json"
 	"errors"
 	"fmt"
 	"reflect"
+	"runtime/pprof"
 	"sort"
+	"strconv"
 	"strings"
 	"sync"
 	"time"
@@ -34,6 +37,12 @@ import (
 //	cancelcall  cancel the context of outstanding call #A
 //	cancelsub   cancel the context of pending (first-time) Subscribe #A
 //	reconnect   drop the connection and run the after-connect callback   A: k>0 = the k-th send of the callback fails
+//	            B (only after "down"): 0 = requests blocked in Send go out before the callback runs, 1 = after it
+//	hold        like notify for a live server id, but the harness does not consume it yet: the receive loop stays
+//	            blocked on the subscriber (slow consumer) while later steps run; anything that needs the loop consumes it first
+//	consume     consume the held notification
+//	down        the connection is lost and the transport knows: from now on Send blocks (as the real transport's does)
+//	            until the next reconnect; calls / Subscribe / Unsubscribe started meanwhile are "in limbo"
 type WSStep struct {
 	Op string `json:"op"`
 	A  int    `json:"a,omitempty"`
@@ -52,10 +61,34 @@ type fakeWS struct {
 	closed chan struct{}
 	mu     sync.Mutex
 	failIn int
+	gate   chan struct{} // closed channel = connection up; open channel = Send blocks
 }
 
+var openGate = func() chan struct{} { c := make(chan struct{}); close(c); return c }()
+
 func newFakeWS() *fakeWS {
-	return &fakeWS{recv: make(chan []byte), out: make(chan []byte, 4096), closed: make(chan struct{})}
+	return &fakeWS{recv: make(chan []byte), out: make(chan []byte, 4096), closed: make(chan struct{}), gate: openGate}
+}
+
+// down makes later Sends block; it returns the gate they block on.
+func (f *fakeWS) down() {
+	f.mu.Lock()
+	if f.gate == openGate {
+		f.gate = make(chan struct{})
+	}
+	f.mu.Unlock()
+}
+
+// up lets new Sends pass and returns the gate the earlier ones are blocked on (nil if none).
+func (f *fakeWS) up() chan struct{} {
+	f.mu.Lock()
+	defer f.mu.Unlock()
+	if f.gate == openGate {
+		return nil
+	}
+	g := f.gate
+	f.gate = openGate
+	return g
 }
 
 func (f *fakeWS) Connect() error                         { return nil }
@@ -75,7 +108,15 @@ func (f *fakeWS) Send(ctx context.Context, m []byte) error {
 			return errors.New("verif transport: connection lost")
 		}
 	}
+	g := f.gate
 	f.mu.Unlock()
+	select {
+	case <-g:
+	case <-ctx.Done():
+		return ctx.Err()
+	case <-f.closed:
+		return errors.New("verif transport: closed")
+	}
 	cp := append([]byte{}, m...)
 	select {
 	case f.out <- cp:
@@ -85,6 +126,27 @@ func (f *fakeWS) Send(ctx context.Context, m []byte) error {
 	case <-f.closed:
 		return errors.New("verif transport: closed")
 	}
+}
+
+// blockedSenders counts goroutines inside Send by looking at the goroutine profile: an
+// observation that does not synchronize with them (no happens-before edge is added).
+func blockedSenders() int {
+	var buf bytes.Buffer
+	_ = pprof.Lookup("goroutine").WriteTo(&buf, 1)
+	n := 0
+	for _, blk := range strings.Split(buf.String(), "\n\n") {
+		if !strings.Contains(blk, "c18.(*fakeWS).Send") {
+			continue
+		}
+		c := 1
+		if i := strings.Index(blk, " @"); i > 0 {
+			if v, err := strconv.Atoi(strings.TrimSpace(blk[:i])); err == nil {
+				c = v
+			}
+		}
+		n += c
+	}
+	return n
 }
 
 // ---- model
@@ -115,8 +177,16 @@ const (
 	stInactive      = "inactive"       // configured, nothing outstanding (re-request rejected or not sent)
 	stRejected      = "rejected"       // first request rejected: whether it stays configured is unspecified
 	stUnsubscribing = "unsubscribing"  // eth_unsubscribe outstanding; not configured any more
+	stLimbo         = "limbo"          // Subscribe started while the connection was down (blocked in Send); configured
+	stLimboUnsub    = "limbo-unsub"    // Unsubscribe of an active subscription blocked in Send; not configured any more
 	stGone          = "gone"
 )
+
+type heldNotif struct {
+	s       *wsSub
+	id      string
+	payload string
+}
 
 type wsSub struct {
 	n         int
@@ -154,6 +224,9 @@ type wsRun struct {
 	trace      []string
 	nt         bool
 	classes    map[string]bool
+	held       *heldNotif
+	isDown     bool
+	limbo      []*wsCall
 }
 
 var serverIDs = []string{"0xa1", "0xb2", "0xc3", "0xd4", "0xe5"}
@@ -181,6 +254,13 @@ func (r *wsRun) class(s string) { r.classes[s] = true }
 
 // deliver hands one frame to the client's receive loop (unbuffered: returns once the loop has taken it).
 func (r *wsRun) deliver(b string) bool {
+	if r.held != nil && !r.consumeHeld() {
+		return false
+	}
+	return r.deliverRaw(b)
+}
+
+func (r *wsRun) deliverRaw(b string) bool {
 	select {
 	case r.tr.recv <- []byte(b):
 		return true
@@ -195,6 +275,49 @@ func (r *wsRun) deliver(b string) bool {
 func (r *wsRun) barrier() bool { return r.deliver("#verif-barrier") }
 
 func (r *wsRun) deliverSync(b string) bool { return r.deliver(b) && r.barrier() }
+
+// consumeHeld reads the held notification from its subscriber and lets the loop go on.
+func (r *wsRun) consumeHeld() bool {
+	h := r.held
+	r.held = nil
+	select {
+	case n, ok := <-h.s.handle.Notifications():
+		if !ok || n == nil || n.CurrentSubID != h.id || n.Result == nil || !jsonEq(n.Result.String(), h.payload) {
+			r.fail("notification-routing", "the notification for server id %s that %s was slow to consume arrived altered or its channel was closed: %+v", h.id, h.s.token, n)
+		}
+	case <-time.After(liveness):
+		r.stuck("the notification for %s held back by a slow consumer was never handed over", h.id)
+		return false
+	}
+	return r.deliverRaw("#verif-barrier")
+}
+
+// waitBlocked waits until n goroutines sit in the transport's Send (connection down).
+func (r *wsRun) waitBlocked(n int, what string) bool {
+	deadline := time.Now().Add(liveness)
+	pause := 20 * time.Microsecond
+	for blockedSenders() < n {
+		if time.Now().After(deadline) {
+			r.stuck("%s did not reach the transport within %s", what, liveness)
+			return false
+		}
+		time.Sleep(pause)
+		if pause < 2*time.Millisecond {
+			pause *= 2
+		}
+	}
+	return true
+}
+
+func (r *wsRun) limboCount() int {
+	n := len(r.limbo)
+	for _, s := range r.subs {
+		if s.state == stLimbo || s.state == stLimboUnsub {
+			n++
+		}
+	}
+	return n
+}
 
 func parseFrame(b []byte) (frame, error) {
 	var f struct {
@@ -273,11 +396,19 @@ func (r *wsRun) checkQuiet() {
 	lo, hi := 0, 0
 	for _, s := range r.subs {
 		switch s.state {
-		case stPending1, stActive, stRepending, stInactive:
+		case stPending1, stActive, stRepending, stInactive, stLimbo:
 			lo++
 			hi++
 		case stRejected:
 			hi++
+		}
+	}
+	for _, c := range r.limbo {
+		select {
+		case res := <-c.done:
+			r.fail("reply-pairing", "call %s, whose request is still waiting for a connection, completed with result %q error %v", c.token, res.result, res.rpcErr)
+			c.done <- res
+		default:
 		}
 	}
 	if n := len(r.rc.Subscriptions()); n < lo || n > hi {
@@ -353,6 +484,13 @@ func (r *wsRun) opCall(failSend bool) {
 		r.noStrayFrames("a failed send")
 		return
 	}
+	if r.isDown {
+		if r.waitBlocked(r.limboCount()+1, "call "+c.token) {
+			r.limbo = append(r.limbo, c)
+			r.class("ws:call-started-while-down")
+		}
+		return
+	}
 	select {
 	case b := <-r.tr.out:
 		f, err := parseFrame(b)
@@ -374,7 +512,7 @@ func (r *wsRun) opCall(failSend bool) {
 }
 
 func (r *wsRun) opReply(a, b int) {
-	if len(r.calls) == 0 {
+	if len(r.calls) == 0 || r.isDown {
 		return
 	}
 	if a < 0 {
@@ -419,6 +557,9 @@ func (r *wsRun) opReply(a, b int) {
 }
 
 func (r *wsRun) opStale(a, b int) {
+	if r.isDown {
+		return
+	}
 	if a < 0 {
 		a = -a
 	}
@@ -509,6 +650,14 @@ func (r *wsRun) opSub(failSend bool) {
 		r.noStrayFrames("a failed send")
 		return
 	}
+	if r.isDown {
+		if r.waitBlocked(r.limboCount()+1, "Subscribe "+s.token) {
+			s.state = stLimbo
+			r.subs = append(r.subs, s)
+			r.class("ws:subscribe-started-while-down")
+		}
+		return
+	}
 	select {
 	case b := <-r.tr.out:
 		f, err := parseFrame(b)
@@ -545,7 +694,7 @@ func (r *wsRun) waitSubscribe(s *wsSub, why string) (subResult, bool) {
 
 func (r *wsRun) opConfirm(a, b int) {
 	s := pickSub(r.subs, a, stPending1, stRepending)
-	if s == nil {
+	if s == nil || r.isDown {
 		return
 	}
 	id := r.freeServerID(b)
@@ -579,7 +728,7 @@ func (r *wsRun) opConfirm(a, b int) {
 
 func (r *wsRun) opReject(a, b int) {
 	s := pickSub(r.subs, a, stPending1, stRepending)
-	if s == nil {
+	if s == nil || r.isDown {
 		return
 	}
 	var msg string
@@ -619,7 +768,71 @@ func (r *wsRun) opReject(a, b int) {
 // opNotify delivers an eth_subscription frame and observes, without any timing, who
 // consumes it: either exactly one subscription's channel yields it, or the receive loop
 // comes back for the next frame (the barrier) having dropped it.
+// loopBlockedOnSubscriber reports whether the receive loop sits in the select that hands a
+// notification to a subscriber (observed from the goroutine dump, i.e. without synchronizing).
+func loopBlockedOnSubscriber() bool {
+	buf := make([]byte, 1<<18)
+	for {
+		n := runtime.Stack(buf, true)
+		if n < len(buf) {
+			buf = buf[:n]
+			break
+		}
+		buf = make([]byte, 2*len(buf))
+	}
+	for _, g := range strings.Split(string(buf), "\n\n") {
+		if strings.Contains(g, "rpcbackend.(*wsRPCClient).handleSubscriptionNotification") {
+			if i := strings.IndexByte(g, '\n'); i > 0 && strings.Contains(g[:i], "[select") {
+				return true
+			}
+		}
+	}
+	return false
+}
+
+// opHold: a notification for a live id whose subscriber does not read yet.
+func (r *wsRun) opHold(a int) {
+	if r.isDown || r.held != nil || len(r.owner) == 0 {
+		return
+	}
+	if a < 0 {
+		a = -a
+	}
+	ids := sortedKeys(r.owner)
+	id := ids[a%len(ids)]
+	s := r.owner[id]
+	r.seq++
+	payload := fmt.Sprintf(`{"n":%d,"for":%q,"held":true}`, r.seq, id)
+	if !r.deliverRaw(fmt.Sprintf(`{"jsonrpc":"2.0","method":"eth_subscription","params":{"subscription":%q,"result":%s}}`, id, payload)) {
+		return
+	}
+	// Only go on when the loop really waits for the subscriber: what happens when an
+	// Unsubscribe overtakes a notification *inside* the loop is deliberately not asserted.
+	deadline := time.Now().Add(liveness)
+	for !loopBlockedOnSubscriber() {
+		if time.Now().After(deadline) {
+			r.stuck("a notification for live server id %s (owner %s) was not offered to its subscriber within %s", id, s.token, liveness)
+			return
+		}
+		time.Sleep(50 * time.Microsecond)
+	}
+	r.held = &heldNotif{s: s, id: id, payload: payload}
+	r.class("ws:slow-consumer(held-notification)")
+}
+
+func (r *wsRun) opDown() {
+	if r.isDown {
+		return
+	}
+	r.tr.down()
+	r.isDown = true
+	r.class("ws:down-period")
+}
+
 func (r *wsRun) opNotify(a int) {
+	if r.isDown {
+		return
+	}
 	if a < 0 {
 		a = -a
 	}
@@ -705,6 +918,19 @@ func (r *wsRun) opUnsub(a int) {
 		s.unsubDone <- s.handle.Unsubscribe(ctx)
 	}()
 	wasActive := s.state == stActive
+	if r.held != nil && r.held.s == s {
+		// Unsubscribe cancels the subscription's context first: the loop gives up on the held notification
+		r.held = nil
+		r.class("ws:unsubscribe-while-notification-held")
+	}
+	if r.isDown && wasActive {
+		if r.waitBlocked(r.limboCount()+1, "Unsubscribe of "+s.token) {
+			delete(r.owner, s.serverID)
+			s.state = stLimboUnsub
+			r.class("ws:unsubscribe-started-while-down")
+		}
+		return
+	}
 	select {
 	case b := <-r.tr.out:
 		f, err := parseFrame(b)
@@ -759,7 +985,7 @@ func (r *wsRun) waitUnsub(s *wsSub, why string) (*rpcbackend.RPCError, bool) {
 
 func (r *wsRun) opUnsubReply(a, b int) {
 	s := pickSub(r.subs, a, stUnsubscribing)
-	if s == nil {
+	if s == nil || r.isDown {
 		return
 	}
 	var msg string
@@ -795,16 +1021,25 @@ func (r *wsRun) opUnsubReply(a, b int) {
 }
 
 func (r *wsRun) opCancelCall(a int) {
-	if len(r.calls) == 0 {
+	all := append(append([]*wsCall{}, r.calls...), r.limbo...)
+	if len(all) == 0 {
 		return
 	}
 	if a < 0 {
 		a = -a
 	}
-	c := r.calls[a%len(r.calls)]
+	c := all[a%len(all)]
 	c.cancel()
 	r.removeCall(c)
-	r.stale = append(r.stale, c.id)
+	for i, x := range r.limbo {
+		if x == c {
+			r.limbo = append(r.limbo[:i], r.limbo[i+1:]...)
+			break
+		}
+	}
+	if c.id != "" {
+		r.stale = append(r.stale, c.id)
+	}
 	res, ok := r.waitCall(c, "its context was cancelled")
 	if ok && res.rpcErr == nil {
 		r.fail("error-path", "call %s returned no error after its context was cancelled (result %q)", c.token, res.result)
@@ -812,7 +1047,7 @@ func (r *wsRun) opCancelCall(a int) {
 }
 
 func (r *wsRun) opCancelSub(a int) {
-	s := pickSub(r.subs, a, stPending1)
+	s := pickSub(r.subs, a, stPending1, stLimbo)
 	if s == nil {
 		return
 	}
@@ -821,7 +1056,9 @@ func (r *wsRun) opCancelSub(a int) {
 	if ok && res.rpcErr == nil {
 		r.fail("error-path", "Subscribe %s returned no error after its context was cancelled", s.token)
 	}
-	r.stale = append(r.stale, s.reqID)
+	if s.reqID != "" {
+		r.stale = append(r.stale, s.reqID)
+	}
 	s.state, s.reqID = stGone, ""
 }
 
